@@ -146,7 +146,9 @@ def eval_codes(mods, fn, cases, extra="", shard=250, tag="codes"):
     jobs = []
     for si, sh in enumerate(shards):
         body = common.CASE_PRELUDE.format(mods=" ".join(mods), extra=extra)
-        body += "Definition cases := [\n  " + ";\n  ".join(sh) + "\n].\n"
+        # the element type is taken from the function, so a shard whose cases all carry None / [] still type-checks
+        body += "Definition typed_cases {A} (f : A -> list nat) (l : list A) : list A := l.\n"
+        body += "Definition cases := typed_cases %s [\n  " % fn + ";\n  ".join(sh) + "\n].\n"
         body += ("Definition res := (fix go (i : nat) l := match l with [] => [] | c :: r => "
                  "match %s c with [] => go (S i) r | codes => (i, codes) :: go (S i) r end end) O cases.\n" % fn)
         body += "Eval vm_compute in res.\n"
